@@ -62,6 +62,19 @@ def check_layout(res, L, rng, tag, kmax, names_unique=True):
             if not common.eq(prod, nb) or nb.value.tolist() != [1 if j == idx else 0 for j in range(N)]:
                 res.violate('named blade is not the ordered product of the basis vectors of its ids', dict(site, name=L.names[idx], ids=[str(t) for t in tup]),
                             nb.value.tolist(), prod.value.tolist(), dict(site, op='blades'))
+            # a default name `<prefix><i1><i2>..` spells the factors in the order of the product it names
+            name_ = L.names[idx]
+            if isinstance(name_, str) and 2 <= len(tup) <= 4:
+                for perm_ in itertools.permutations(tup):
+                    for pre_ in ('e', name_[:1]):
+                        if name_ == pre_ + ''.join(str(t_) for t_ in perm_):
+                            pp_ = one
+                            for t_ in perm_:
+                                pp_ = pp_ * E[ids.index(t_)]
+                            if not common.eq(pp_, nb):
+                                res.violate('a default blade name lists the ids in an order whose product is not the named blade',
+                                            dict(site, name=name_, ids=[str(t_) for t_ in perm_]), nb.value.tolist(), pp_.value.tolist(), dict(site, op='blade-name-order'))
+                            break
             # bitmap <-> tuple
             exp_tup = tuple(ids[k] for k in range(n) if (i2b[idx] >> k) & 1)
             if tuple(tup) != exp_tup:
@@ -133,7 +146,15 @@ def check_layout(res, L, rng, tag, kmax, names_unique=True):
     # errors
     if n >= 1:
         res.case(('errors', tag))
-        for bad in ((ids[0], ids[0]), (ids[-1], ids[0], ids[-1]) if n >= 2 else (ids[0], ids[0]), ('no-such-id',), (ids[0], 'no-such-id')):
+        bads = [(ids[0], ids[0]), (ids[-1], ids[0], ids[-1]) if n >= 2 else (ids[0], ids[0]), ('no-such-id',), (ids[0], 'no-such-id')]
+        if all(isinstance(i_, (int, np.integer)) for i_ in ids):
+            # integers just outside the id range, negative ones, and the window of width n below the smallest id
+            lo_, hi_ = min(int(i_) for i_ in ids), max(int(i_) for i_ in ids)
+            for u_ in (lo_ - 1, lo_ - n, hi_ + 1, -1, -n, 0):
+                if u_ not in [int(i_) for i_ in ids]:
+                    bads.append((u_,))
+                    bads.append((ids[0], u_))
+        for bad in bads:
             for how in ('get', 'set'):
                 try:
                     if how == 'get':
